@@ -301,7 +301,8 @@ def check_sched(pid, spec, args):
             race = race_probe(pid, spec, scratch, seed, args)
             if race.get("violation"):
                 violations.append((race["violation"], {"class": "race", "detail": race.get("detail", "")}))
-        runs = sum(s["runs"] for s in sums)
+        runs = sum(s.get("evals") or s["runs"] for s in sums)
+        workloads = sum(s["runs"] for s in sums)
         wall = time.time() - t0
         distinct = merge_hashes([s["hash_file"] for s in sums if s.get("hash_file")])
 
@@ -314,6 +315,7 @@ def check_sched(pid, spec, args):
         run_wall = max([s["wall_s"] for s in sums] + [1e-9])
         cov = {
             "evaluations": runs,
+            "workloads": workloads,
             "distinct_nontrivial": distinct,
             "rule": spec["rule"],
             "samples": [x for s in sums for x in (s.get("samples") or [])][:3],
@@ -352,6 +354,9 @@ def check_sched(pid, spec, args):
         vac = None
         if runs == 0 or cov["nontrivial_runs"] == 0:
             vac = "no non-trivial run was executed"
+        vc = spec.get("vacuity_counter")
+        if vc and not violations and not cov["counters"].get(vc):
+            vac = "counter %s stayed at zero: the check would be vacuous" % vc
         finish(pid, violations, known, unconfirmed, vac)
 
 
